@@ -28,8 +28,9 @@ theorem mkInRow_layout (cfg cfg' : Config) (asset : String) (acct : String → S
   obtain ⟨hf, hl⟩ := h
   unfold mkInRow
   simp only [numArg_congr hf, strArg_congr hf, tsArg_congr hf, notesOk_congr hf, h1, h2, h3]
-  have hl' : (row.length ≤ maxCol cfg.inCols) ↔ (row'.length ≤ maxCol cfg'.inCols) := by
-    simpa using hl
+  have hl' : decide (maxCol cfg.inCols < row.length) = decide (maxCol cfg'.inCols < row'.length) := by
+    have : (row.length ≤ maxCol cfg.inCols) ↔ (row'.length ≤ maxCol cfg'.inCols) := by simpa using hl
+    by_cases h1 : maxCol cfg.inCols < row.length <;> by_cases h2 : maxCol cfg'.inCols < row'.length <;> simp [h1, h2] <;> omega
   simp only [hl']
 
 /-- a concrete instance of `SameRecord`: permuting the columns of the row and of the header map alike -/
